@@ -48,6 +48,10 @@ CHECKS = {
             "wrapped pass-1/pass-2 hooks on the real Assembler + independent layout walk + per-statement metamorphic oracle + statelessness/determinism monitors over grammar-generated programs",
             "Held (modulo listed findings) on seeded programs of 5-60 lines covering labels, sections, .ORG, all data directives and symbolic operands, and on all 2-statement combinations of construct classes: pass-1 sizes == pass-2 bytes, statement addresses and label values == independent walk, image == standalone statements, deterministic and history-free, page rule enforced.",
             "Well-formedness is by construction of the generator; rejections of admitted constructs are keyed by construct.", "DESIGN.md 3/C10"),
+    "C11": ("exploration",
+            "reference byte-store monitor + conservation diff of every backing array after each store + alias/twin probes + wide-vs-byte metamorphic oracle on the real PCE500Memory and MemoryImage; CPU-facing Rust bus through CoreRuntime::step",
+            "Held (modulo listed findings) on every memory configuration x seeded histories of 8/16/24-bit accesses concentrated on region boundaries and 32-bit aliases: reads equal the last write (RAM) or the image (ROM/read-only/absent), stores change only the written locations in ALL backing stores, aliases agree, wide accesses compose little-endian.",
+            "Device windows without installed handlers behave as plain memory; reference knows only the applied configuration.", "DESIGN.md 3/C11"),
     "C13": ("exploration",
             "reference-arithmetic monitor + cross-core comparison on every tick of the real TimerScheduler.advance and TimerContext::tick_timers; icontract postcondition on advance()",
             "Held on all period pairs 0..12 x 0..12 x enabled, sampled large periods, every-cycle and gap sequences with resets and snapshot/restore points: fire pattern, next targets strictly in the future, ISR bits, exactly-once on every-cycle sequences, Python == Rust.",
